@@ -173,7 +173,9 @@ pub(crate) struct RequestResponseProtocol {
     >,
 
     /// Pending dials for outbound requests.
-    pending_dials: HashMap<PeerId, RequestContext>,
+    ///
+    /// Several requests may be waiting for the same dial.
+    pending_dials: HashMap<PeerId, Vec<RequestContext>>,
 
     /// TX channel for sending events to the user protocol.
     event_tx: Sender<InnerRequestResponseEvent>,
@@ -231,7 +233,7 @@ impl RequestResponseProtocol {
             return Err(Error::PeerAlreadyExists(peer));
         };
 
-        match self.pending_dials.remove(&peer) {
+        let contexts = match self.pending_dials.remove(&peer) {
             None => {
                 tracing::debug!(
                     target: LOG_TARGET,
@@ -240,8 +242,16 @@ impl RequestResponseProtocol {
                     "peer connected without pending dial",
                 );
                 entry.insert(PeerContext::new());
+                return Ok(());
             }
-            Some(context) => match self.service.open_substream(peer) {
+            Some(contexts) => contexts,
+        };
+
+        let peer_context = entry.insert(PeerContext::new());
+        let mut failed = Vec::new();
+
+        for context in contexts {
+            match self.service.open_substream(peer) {
                 Ok(substream_id) => {
                     tracing::trace!(
                         target: LOG_TARGET,
@@ -252,10 +262,7 @@ impl RequestResponseProtocol {
                         "dial succeeded, open substream",
                     );
 
-                    entry.insert(PeerContext {
-                        active: HashSet::from_iter([context.request_id]),
-                        active_inbound: HashMap::new(),
-                    });
+                    peer_context.active.insert(context.request_id);
                     self.pending_outbound.insert(
                         substream_id,
                         RequestContext::new(
@@ -280,15 +287,18 @@ impl RequestResponseProtocol {
                         "failed to open substream",
                     );
 
-                    return self
-                        .report_request_failure(
-                            peer,
-                            context.request_id,
-                            RequestResponseError::Rejected(error.into()),
-                        )
-                        .await;
+                    failed.push((context.request_id, error));
                 }
-            },
+            }
+        }
+
+        for (request_id, error) in failed {
+            self.report_request_failure(
+                peer,
+                request_id,
+                RequestResponseError::Rejected(error.into()),
+            )
+            .await?;
         }
 
         Ok(())
@@ -624,20 +634,22 @@ impl RequestResponseProtocol {
     }
 
     async fn on_dial_failure(&mut self, peer: PeerId) {
-        if let Some(context) = self.pending_dials.remove(&peer) {
+        if let Some(contexts) = self.pending_dials.remove(&peer) {
             tracing::debug!(target: LOG_TARGET, ?peer, protocol = %self.protocol, "failed to dial peer");
 
-            let _ = self
-                .peers
-                .get_mut(&peer)
-                .map(|peer_context| peer_context.active.remove(&context.request_id));
-            let _ = self
-                .report_request_failure(
-                    peer,
-                    context.request_id,
-                    RequestResponseError::Rejected(RejectReason::DialFailed(None)),
-                )
-                .await;
+            for context in contexts {
+                let _ = self
+                    .peers
+                    .get_mut(&peer)
+                    .map(|peer_context| peer_context.active.remove(&context.request_id));
+                let _ = self
+                    .report_request_failure(
+                        peer,
+                        context.request_id,
+                        RequestResponseError::Rejected(RejectReason::DialFailed(None)),
+                    )
+                    .await;
+            }
         }
     }
 
@@ -751,10 +763,10 @@ impl RequestResponseProtocol {
                             "started dialing peer",
                         );
 
-                        self.pending_dials.insert(
-                            peer,
-                            RequestContext::new(peer, request_id, request, fallback),
-                        );
+                        self.pending_dials
+                            .entry(peer)
+                            .or_default()
+                            .push(RequestContext::new(peer, request_id, request, fallback));
                         return Ok(());
                     }
                     Err(error) => {
